@@ -31,6 +31,11 @@ Inductive op :=
 | ORemoveFully (fl : flavour) (key : bytes)
 | OClear (fl : flavour)
 | OList
+| OLinkTo (fl : flavour) (key : option bytes) (target : name)
+| OLOpen (fl : flavour) (l : N) (plain : bool) (key : option bytes) (o : wopts) (target : name)
+| OLChunk (l : N) (n : N)
+| OLCommit (l : N)
+| OLDrop (l : N)
 (* damage / environment steps, applied verbatim to the tree *)
 | DSet (l : loc) (d : bytes)
 | DDel (l : loc)
@@ -51,12 +56,15 @@ Inductive outcome :=
 | Res (r : res val)
 | BadArg.                       (* unknown handle: the harness answers "badarg" too *)
 
-Record sstate := mkS {
+Record sstate := mkS0 {
   s_fs : fs;
   s_w : list (N * wstate);
-  s_r : list (N * rstate)
+  s_r : list (N * rstate);
+  s_l : list (N * lstate)
 }.
-Definition sstate0 : sstate := mkS [] [] [].
+(* a new state that keeps the open linkers of [s] *)
+Definition mkS (s : sstate) (f : fs) (w : list (N * wstate)) (r : list (N * rstate)) : sstate := mkS0 f w r (s_l s).
+Definition sstate0 : sstate := mkS0 [] [] [] [].
 
 Fixpoint hget {A} (h : N) (l : list (N * A)) : option A :=
   match l with
@@ -79,7 +87,7 @@ Section WithHash.
 Variable hash : algo -> bytes -> bytes.
 
 Definition runv {A} (s : sstate) (p : prog (res A)) (g : A -> val) : outcome * sstate :=
-  let '(r, f) := run p (s_fs s) in (Res (rmap g r), mkS f (s_w s) (s_r s)).
+  let '(r, f) := run p (s_fs s) in (Res (rmap g r), mkS s f (s_w s) (s_r s)).
 
 Definition step (s : sstate) (o : op) (now : N) : outcome * sstate :=
   match o with
@@ -88,8 +96,8 @@ Definition step (s : sstate) (o : op) (now : N) : outcome * sstate :=
   | OOpen fl w key o =>
       let '(r, f) := run (open_writer fl key o) (s_fs s) in
       match r with
-      | Ok ws => (Res (Ok VUnit), mkS f (hset w ws (s_w s)) (s_r s))
-      | other => (Res (rmap (fun _ => VUnit) other), mkS f (s_w s) (s_r s))
+      | Ok ws => (Res (Ok VUnit), mkS s f (hset w ws (s_w s)) (s_r s))
+      | other => (Res (rmap (fun _ => VUnit) other), mkS s f (s_w s) (s_r s))
       end
   | OChunk w d =>
       match hget w (s_w s) with
@@ -97,8 +105,8 @@ Definition step (s : sstate) (o : op) (now : N) : outcome * sstate :=
       | Some ws =>
           let '(r, f) := run (write_chunk ws d) (s_fs s) in
           match r with
-          | Ok ws' => (Res (Ok (VNum (lenN d))), mkS f (hset w ws' (s_w s)) (s_r s))
-          | other => (Res (rmap (fun _ => VUnit) other), mkS f (s_w s) (s_r s))
+          | Ok ws' => (Res (Ok (VNum (lenN d))), mkS s f (hset w ws' (s_w s)) (s_r s))
+          | other => (Res (rmap (fun _ => VUnit) other), mkS s f (s_w s) (s_r s))
           end
       end
   | OCommit w =>
@@ -106,14 +114,14 @@ Definition step (s : sstate) (o : op) (now : N) : outcome * sstate :=
       | None => (BadArg, s)
       | Some ws =>
           let '(r, f) := run (commit hash ws now) (s_fs s) in
-          (Res (rmap VSri r), mkS f (hdel w (s_w s)) (s_r s))
+          (Res (rmap VSri r), mkS s f (hdel w (s_w s)) (s_r s))
       end
   | ODrop w =>
       match hget w (s_w s) with
       | None => (BadArg, s)
       | Some ws =>
           let '(r, f) := run (drop_writer ws) (s_fs s) in
-          (Res (Ok VUnit), mkS f (hdel w (s_w s)) (s_r s))
+          (Res (Ok VUnit), mkS s f (hdel w (s_w s)) (s_r s))
       end
   | OInsert _ key o => runv s (insert hash key o now) VSri
   | ODelete _ key => runv s (delete hash key now) (fun _ => VUnit)
@@ -124,30 +132,30 @@ Definition step (s : sstate) (o : op) (now : N) : outcome * sstate :=
       let p := match b with ByKey k => ropen hash k | ByHash i => ropen_hash i end in
       let '(x, f) := run p (s_fs s) in
       match x with
-      | Ok rs => (Res (Ok VUnit), mkS f (s_w s) (hset r rs (s_r s)))
-      | other => (Res (rmap (fun _ => VUnit) other), mkS f (s_w s) (s_r s))
+      | Ok rs => (Res (Ok VUnit), mkS s f (s_w s) (hset r rs (s_r s)))
+      | other => (Res (rmap (fun _ => VUnit) other), mkS s f (s_w s) (s_r s))
       end
   | ORChunk r n =>
       match hget r (s_r s) with
       | None => (BadArg, s)
       | Some rs => let '(c, rs') := rchunk rs n in
-                   (Res (Ok (VBytes c)), mkS (s_fs s) (s_w s) (hset r rs' (s_r s)))
+                   (Res (Ok (VBytes c)), mkS s (s_fs s) (s_w s) (hset r rs' (s_r s)))
       end
   | ORAll r =>
       match hget r (s_r s) with
       | None => (BadArg, s)
       | Some rs => let '(c, rs') := rchunk rs (lenN (r_rest rs)) in
-                   (Res (Ok (VBytes c)), mkS (s_fs s) (s_w s) (hset r rs' (s_r s)))
+                   (Res (Ok (VBytes c)), mkS s (s_fs s) (s_w s) (hset r rs' (s_r s)))
       end
   | ORCheck r =>
       match hget r (s_r s) with
       | None => (BadArg, s)
-      | Some rs => (Res (rmap VAlgo (rcheck hash rs)), mkS (s_fs s) (s_w s) (hdel r (s_r s)))
+      | Some rs => (Res (rmap VAlgo (rcheck hash rs)), mkS s (s_fs s) (s_w s) (hdel r (s_r s)))
       end
   | ORDrop r =>
       match hget r (s_r s) with
       | None => (BadArg, s)
-      | Some _ => (Res (Ok VUnit), mkS (s_fs s) (s_w s) (hdel r (s_r s)))
+      | Some _ => (Res (Ok VUnit), mkS s (s_fs s) (s_w s) (hdel r (s_r s)))
       end
   | OExtract x _ checked b dst =>
       let p := match b with
@@ -160,14 +168,39 @@ Definition step (s : sstate) (o : op) (now : N) : outcome * sstate :=
   | ORemoveFully _ key => runv s (remove_fully hash key) (fun _ => VUnit)
   | OClear _ => runv s clear (fun _ => VUnit)
   | OList => runv s (ls hash) VList
-  | DSet l d => (Res (Ok VUnit), mkS (update (s_fs s) l (File d)) (s_w s) (s_r s))
-  | DDel l => (Res (Ok VUnit), mkS (remove (s_fs s) l) (s_w s) (s_r s))
+  | OLinkTo _ key target => runv s (link_to hash key target now) VSri
+  | OLOpen _ l plain key o target =>
+      let '(r, f) := run (open_linker plain key o target) (s_fs s) in
+      match r with
+      | Ok ls => (Res (Ok VUnit), mkS0 f (s_w s) (s_r s) (hset l ls (s_l s)))
+      | other => (Res (rmap (fun _ => VUnit) other), mkS s f (s_w s) (s_r s))
+      end
+  | OLChunk l n =>
+      match hget l (s_l s) with
+      | None => (BadArg, s)
+      | Some ls => let '(c, ls') := lchunk ls n in
+                   (Res (Ok (VBytes c)), mkS0 (s_fs s) (s_w s) (s_r s) (hset l ls' (s_l s)))
+      end
+  | OLCommit l =>
+      match hget l (s_l s) with
+      | None => (BadArg, s)
+      | Some ls =>
+          let '(r, f) := run (commit_linker hash ls now) (s_fs s) in
+          (Res (rmap VSri r), mkS0 f (s_w s) (s_r s) (hdel l (s_l s)))
+      end
+  | OLDrop l =>
+      match hget l (s_l s) with
+      | None => (BadArg, s)
+      | Some _ => (Res (Ok VUnit), mkS0 (s_fs s) (s_w s) (s_r s) (hdel l (s_l s)))
+      end
+  | DSet l d => (Res (Ok VUnit), mkS s (update (s_fs s) l (File d)) (s_w s) (s_r s))
+  | DDel l => (Res (Ok VUnit), mkS s (remove (s_fs s) l) (s_w s) (s_r s))
   | DMkdir l =>
       let f := match l with
                | InCache p => snd (mkdirs (remove (s_fs s) l) (prefixes p))
                | Ext _ => update (s_fs s) l Dir end in
-      (Res (Ok VUnit), mkS f (s_w s) (s_r s))
-  | DSymlink l t => (Res (Ok VUnit), mkS (update (s_fs s) l (Symlink t)) (s_w s) (s_r s))
+      (Res (Ok VUnit), mkS s f (s_w s) (s_r s))
+  | DSymlink l t => (Res (Ok VUnit), mkS s (update (s_fs s) l (Symlink t)) (s_w s) (s_r s))
   end.
 
 
@@ -276,6 +309,8 @@ Definition parse_op (ts : list bytes) : option op :=
         do fl' <- tok_fl fl; do r <- tok_num a; do k <- tok_bytes d; Some (OROpen fl' r (ByKey k))
       else if tok_is "ropen_hash" c then
         do fl' <- tok_fl fl; do r <- tok_num a; do i <- tok_sri d; Some (OROpen fl' r (ByHash i))
+      else if tok_is "link_to" c then
+        do fl' <- tok_fl fl; do k' <- tok_opt tok_bytes a; Some (OLinkTo fl' k' d)
       else None
   | [c; fl; w; k; a; s; z; t; m; r] =>
       if tok_is "open" c then
@@ -295,6 +330,7 @@ Definition parse_op (ts : list bytes) : option op :=
   | [c; a; b] =>
       if tok_is "wchunk" c then do w <- tok_num a; do d <- tok_bytes b; Some (OChunk w d)
       else if tok_is "rchunk" c then do r <- tok_num a; do n <- tok_num b; Some (ORChunk r n)
+      else if tok_is "lchunk" c then do l <- tok_num a; do n <- tok_num b; Some (OLChunk l n)
       else if tok_is "delete" c then do fl <- tok_fl a; do k <- tok_bytes b; Some (ODelete fl k)
       else if tok_is "find" c then do fl <- tok_fl a; do k <- tok_bytes b; Some (OFind fl k)
       else if tok_is "read" c then do fl <- tok_fl a; do k <- tok_bytes b; Some (ORead fl k)
@@ -317,9 +353,16 @@ Definition parse_op (ts : list bytes) : option op :=
       else if tok_is "rall" c then option_map ORAll (tok_num a)
       else if tok_is "rcheck" c then option_map ORCheck (tok_num a)
       else if tok_is "rdrop" c then option_map ORDrop (tok_num a)
+      else if tok_is "lcommit" c then option_map OLCommit (tok_num a)
+      else if tok_is "ldrop" c then option_map OLDrop (tok_num a)
       else if tok_is "clear" c then option_map OClear (tok_fl a)
       else if tok_is "ddel" c then option_map DDel (tok_loc a)
       else if tok_is "dmkdir" c then option_map DMkdir (tok_loc a)
+      else None
+  | [c; fl; l; pl; k; a; sr; z; t; m; r; tg] =>
+      if tok_is "lopen" c then
+        do fl' <- tok_fl fl; do l' <- tok_num l; do pl' <- tok_bool pl; do k' <- tok_opt tok_bytes k;
+        do o <- tok_wopts a sr z t m r; Some (OLOpen fl' l' pl' k' o tg)
       else None
   | [c] => if tok_is "list" c then Some OList else None
   | _ => None
